@@ -1,71 +1,156 @@
 import Proofs.C15Paging
 /-!
-# C15 — paged iteration yields every row exactly once, in order, and then stops (logical core)
+# C15 — paged iteration yields every row exactly once, in order, and then stops
 
-Model: `Model/Paging.lean` (conn.go executeQuery's rows case, session.go Scan/Scanner/MapScan/SliceMap
-page switching). Scripted cluster: page i carries paging state i+1 unless it is the last one; a
-request with state i is answered with page i.
+Model: `Model/Paging.lean` — conn.go executeQuery (request built from the Query, the rows / error /
+UNPREPARED answers, the next-page query = copy with the received paging state), session.go
+Scan/Scanner/MapScan/SliceMap page switching, the PageState manual-paging loop; the server is a script
+(the k-th QUERY/EXECUTE is answered with the k-th reply; what each request carries is recorded).
+Every theorem holds for every prefetch-position function `pp` (the float expression only decides WHEN
+the one fetch of a page happens), for a cached or uncached prepared statement, prepared or unprepared,
+skip-metadata or not, every page size.
+
+Full property, request side:  ∀ script, the requests are `Spec.reqs` — each follow-up request carries
+EXACTLY the paging state of the page before.  This does NOT hold on the unchanged code for a page
+whose paging state is present but empty (`has_more_pages` set, `[bytes]` of length 0): conn.go sends a
+paging state only `if len(qry.pageState) > 0`, so the follow-up request carries none (a server that
+identifies pages by state would serve page 0 again: rows repeat for ever). Hence `C15_requests_partial`
+with the hypothesis `NoEmptyState`, and the counterexample `C15_cex_empty_state` (KF-C15-1).
+The row side (`C15_session_rows`) needs no exclusion.
 -/
 namespace C15
 open Paging
 
-/-- **Rows and requests.** For every non-empty list of pages (any number, empty pages, empty last
-    page), every prefetch-position function and enough fuel: the rows delivered are the concatenation
-    of the pages in order, each once; request i+1 carries exactly the paging state of page i; there is
-    exactly one request per page and none after the page without `has_more_pages`; no error. -/
-theorem C15_rows_requests {ρ ε : Type} (pages : List (List ρ)) (hne : pages ≠ []) (e : ε) (pp : Nat → Nat)
-    (fuel : Nat) (hf : pages.length ≤ fuel) :
-    let o := iterate (script pages none e) pp false fuel none
-    o.rows = pages.flatten ∧
-    o.reqs = none :: (List.range' 1 (pages.length - 1)).map some ∧
-    o.reqs.length = pages.length ∧
-    o.err = none := by
-  have hpos : 0 < pages.length := List.length_pos_iff.2 hne
-  have h := drain_script pages e pp pages.length 0 (by omega) hpos fuel hf none rfl
-  simp only [iterate]
-  refine ⟨by simpa using h.1, by rw [h.2.1], ?_, h.2.2⟩
-  rw [h.2.1]; simp; omega
+/-- **Model = specification, rows and error, for every script** (any number of pages, EMPTY pages in
+    any position, empty paging states, a failure or UNPREPARED anywhere): the application receives the
+    pages' rows in order, each once, up to the first failure or the first page without has_more_pages;
+    the final error is that failure (not a normal end). -/
+theorem C15_session_rows (pp : Nat → Nat) (script : List Reply) (cached : Bool) (q : Qry)
+    (hq : q.disableAutoPage = false) :
+    (run pp script cached q).rows = Spec.rows script ∧ (run pp script cached q).err = Spec.err script :=
+  run_rows_err pp script cached q hq
 
-example : (iterate (script [[1, 2], [], [3], []] none "boom") (fun _ => 0) false 10 none).rows = [1, 2, 3] ∧
-          (iterate (script [[1, 2], [], [3], []] none "boom") (fun _ => 0) false 10 none).reqs = [none, some 1, some 2, some 3] := by
+/-- **Model = specification, requests** (partial: no present-but-empty paging state in the script):
+    the server receives exactly `Spec.reqs`: an optional PREPARE, the first request with the caller's
+    state, then per page with has_more_pages ONE request that differs from the first only in carrying
+    exactly that page's paging state (same statement/values/options `ident`, same opcode, same
+    skip-metadata flag, same page size); the same request again after UNPREPARED; nothing after a
+    failure or after the page that says it is last. -/
+theorem C15_requests_partial (pp : Nat → Nat) (script : List Reply) (cached : Bool) (q : Qry)
+    (hq : q.disableAutoPage = false) (hne : NoEmptyState script) :
+    (run pp script cached q).reqs = Spec.reqs (template q) q.prepared script (!cached) (firstState q) :=
+  run_reqs pp script cached q hq hne
+
+/-- counterexample to the unrestricted request statement (KF-C15-1): page 0 = rows [1] with
+    has_more_pages and an EMPTY paging state, page 1 = rows [2], last. The second request carries NO
+    paging state although page 0 carried one (the empty string). Replay: `sessx v4 scan 0.25 10 q . 1:-;2:.` -/
+theorem C15_cex_empty_state :
+    let q : Qry := { ident := 0, prepared := false, skipMeta := false, pageSize := 10, pageState := [], disableAutoPage := false }
+    let script := [Reply.page [1] (some []), Reply.page [2] none]
+    (run (fun _ => 0) script false q).reqs = [template q none, template q none] ∧
+    Spec.reqs (template q) q.prepared script true (firstState q) = [template q none, template q (some [])] ∧
+    (run (fun _ => 0) script false q).reqs ≠ Spec.reqs (template q) q.prepared script true (firstState q) := by
   decide
 
-/-- **A failed fetch surfaces.** If fetching page j fails, the consumer gets the rows of the pages
-    before j, in order, and then the error (not a normal end); nothing is requested after the failure. -/
-theorem C15_error_surfaces {ρ ε : Type} (pages : List (List ρ)) (e : ε) (pp : Nat → Nat) (j : Nat)
-    (hj : j < pages.length) (fuel : Nat) (hf : j + 1 ≤ fuel) :
-    let o := iterate (script pages (some j) e) pp false fuel none
-    o.rows = (pages.take j).flatten ∧
-    o.reqs = none :: (List.range' 1 j).map some ∧
-    o.err = some e := by
-  have h := drain_script_fail pages e pp j hj j 0 (by omega) fuel hf none rfl
-  simp only [iterate]
-  exact ⟨by simpa using h.1, by rw [h.2.1], h.2.2⟩
+/-- **Rows and requests, complete result.** For every list of pages with has_more_pages (any number,
+    any of them EMPTY — first, middle — any paging states) followed by a last page (possibly empty):
+    the rows delivered are the concatenation of all pages in order, each once, no error; and if no
+    state is empty, request i+1 carries exactly the paging state of page i, there is exactly one
+    request per page and none after the last page. -/
+theorem C15_rows_requests (pp : Nat → Nat) (pages : List (List Int × Bytes)) (last : List Int) (tail : List Reply)
+    (cached : Bool) (q : Qry) (hq : q.disableAutoPage = false) :
+    let o := run pp (morePages pages ++ .page last none :: tail) cached q
+    o.rows = (pages.map (·.1)).flatten ++ last ∧
+    o.err = none ∧
+    ((∀ p ∈ pages, p.2 ≠ []) → NoEmptyState tail →
+      o.reqs = prep cached q ++ (firstState q :: pages.map (fun p => some p.2)).map (template q) ∧
+      (o.reqs.filter Req.isExec).length = pages.length + 1) := by
+  have h := run_rows_err pp (morePages pages ++ .page last none :: tail) cached q hq
+  refine ⟨?_, ?_, ?_⟩
+  · rw [h.1, spec_rows_more]; simp [Spec.rows]
+  · rw [h.2, spec_err_more]; simp [Spec.err]
+  · intro hp ht
+    have hne : NoEmptyState (morePages pages ++ .page last none :: tail) :=
+      noEmpty_more pages _ hp (by simpa [NoEmptyState] using ht)
+    have hr := run_reqs pp _ cached q hq hne
+    rw [spec_reqs_more (template q) q.prepared pages (.page last none) tail (Or.inl ⟨last, rfl⟩)] at hr
+    have hreq : (run pp (morePages pages ++ .page last none :: tail) cached q).reqs
+        = prep cached q ++ (firstState q :: pages.map (fun p => some p.2)).map (template q) := by
+      rw [hr, prep_eq]
+    refine ⟨hreq, ?_⟩
+    rw [hreq, prep_eq]
+    have hf : ∀ l : List (Option Bytes), ((l.map (template q)).filter Req.isExec).length = l.length := by
+      intro l; induction l with
+      | nil => rfl
+      | cons a t ih =>
+        have ha : Req.isExec (template q a) = true := rfl
+        simp [List.filter_cons, ha, ih]
+    rw [List.filter_append, List.length_append, hf]
+    split <;> simp [Req.isExec]
 
-example : (iterate (script [[1], [2], [3]] (some 1) "boom") (fun n => n) false 10 none).rows = [1] ∧
-          (iterate (script [[1], [2], [3]] (some 1) "boom") (fun n => n) false 10 none).err = some "boom" := by decide
+/-- non-vacuity, with an EMPTY FIRST and an EMPTY MIDDLE page and an empty last page -/
+example :
+    let q : Qry := { ident := 7, prepared := true, skipMeta := true, pageSize := 2, pageState := [], disableAutoPage := false }
+    let o := run (fun n => n / 2) [.page [] (some [9]), .page [1, 2] (some [0xaa]), .page [] (some [0xbb, 0]), .page [3] (some [0xcc]), .page [] none] false q
+    o.rows = [1, 2, 3] ∧ o.err = none ∧
+    o.reqs = [.prepare, template q none, template q (some [9]), template q (some [0xaa]), template q (some [0xbb, 0]), template q (some [0xcc])] := by
+  decide
 
-/-- **Manual paging.** With auto paging disabled (caller-supplied page state), whatever the cluster
-    answers: exactly one request, carrying the caller's state; the rows of that one page; no nextIter
-    (the page's own state stays available in the metadata, `Iter.PageState`). -/
-theorem C15_manual {ρ σ ε : Type} (exec : Exec ρ σ ε) (pp : Nat → Nat) (fuel : Nat) (first : Option σ) :
-    let it := executeQuery exec pp true first
-    it.next = none ∧
-    (iterate exec pp true (fuel + 1) first).reqs = [first] ∧
-    (∀ rows st, exec first = .ok (rows, st) →
-        (iterate exec pp true (fuel + 1) first).rows = rows ∧ (iterate exec pp true (fuel + 1) first).err = none) ∧
-    (∀ e, exec first = .error e → (iterate exec pp true (fuel + 1) first).err = some e) := by
-  refine ⟨?_, ?_, ?_, ?_⟩
-  · unfold executeQuery; cases exec first with
-    | error e => rfl
-    | ok p => cases p with | mk rows st => cases st <;> rfl
-  · unfold iterate executeQuery; cases exec first with
-    | error e => simp [drain]
-    | ok p => cases p with | mk rows st => cases st <;> simp [drain]
-  · intro rows st h
-    unfold iterate executeQuery; rw [h]; cases st <;> simp [drain]
-  · intro e h
-    unfold iterate executeQuery; rw [h]; simp [drain]
+/-- **A failed fetch surfaces.** If the request for page j (after j pages with has_more_pages, any of
+    them empty) fails — server error, connection closed, timeout, cancelled context — the consumer gets
+    the rows of the pages before it, in order, and then THAT error (not a normal end); nothing is
+    requested after the failure. -/
+theorem C15_error_surfaces (pp : Nat → Nat) (pages : List (List Int × Bytes)) (f : Fail) (tail : List Reply)
+    (cached : Bool) (q : Qry) (hq : q.disableAutoPage = false) :
+    let o := run pp (morePages pages ++ .fail f :: tail) cached q
+    o.rows = (pages.map (·.1)).flatten ∧
+    o.err = some f ∧
+    ((∀ p ∈ pages, p.2 ≠ []) → NoEmptyState tail →
+      o.reqs = prep cached q ++ (firstState q :: pages.map (fun p => some p.2)).map (template q)) := by
+  have h := run_rows_err pp (morePages pages ++ .fail f :: tail) cached q hq
+  refine ⟨?_, ?_, ?_⟩
+  · rw [h.1, spec_rows_more]; simp [Spec.rows]
+  · rw [h.2, spec_err_more]; simp [Spec.err]
+  · intro hp ht
+    have hne : NoEmptyState (morePages pages ++ .fail f :: tail) :=
+      noEmpty_more pages _ hp (by simpa [NoEmptyState] using ht)
+    have hr := run_reqs pp _ cached q hq hne
+    rw [spec_reqs_more (template q) q.prepared pages (.fail f) tail (Or.inr ⟨f, rfl⟩)] at hr
+    rw [hr, prep_eq]
+
+example :
+    let q : Qry := { ident := 7, prepared := false, skipMeta := false, pageSize := 0, pageState := [], disableAutoPage := false }
+    let o := run (fun n => n) [.page [1] (some [1]), .page [] (some [2]), .fail .timeout, .page [3] none] false q
+    o.rows = [1] ∧ o.err = some .timeout ∧ o.reqs = [template q none, template q (some [1]), template q (some [2])] := by
+  decide
+
+/-- **Manual paging, one page.** With auto paging disabled (caller-supplied page state), whatever
+    follows in the script: exactly one request, carrying the caller's state; the rows of that one
+    page; no nextIter; the page's own state is exposed (`Iter.PageState`). A failure is the error. -/
+theorem C15_manual (pp : Nat → Nat) (rest : List Reply) (cached : Bool) (q : Qry) (hq : q.disableAutoPage = true) :
+    (∀ rows st,
+      run pp (.page rows st :: rest) cached q = { rows := rows, reqs := prep cached q ++ [request q], err := none } ∧
+      (pageIter pp q rows st).next = none ∧ (pageIter pp q rows st).pagingState = st.getD []) ∧
+    (∀ f, run pp (.fail f :: rest) cached q = { rows := [], reqs := prep cached q ++ [request q], err := some f }) ∧
+    request q = template q (firstState q) := by
+  refine ⟨?_, ?_, request_eq q⟩
+  · intro rows st
+    cases st <;> simp [run, pageIter, hq]
+  · intro f; simp [run, errIter]
+
+/-- **Manual paging loop** (one Iter per page, `PageState(iter.PageState())` until empty): for every
+    script without a present-but-empty state it delivers exactly what automatic paging delivers —
+    all rows once in order, the failure as error — with exactly the specified requests. -/
+theorem C15_manual_loop (pp : Nat → Nat) (script : List Reply) (cached : Bool) (q : Qry) (hne : NoEmptyState script) :
+    (manual pp script cached q).rows = Spec.rows script ∧ (manual pp script cached q).err = Spec.err script ∧
+    (manual pp script cached q).reqs = Spec.reqs (template q) q.prepared script (!cached) (firstState q) :=
+  manual_spec pp script cached q hne
+
+example :
+    let q : Qry := { ident := 1, prepared := true, skipMeta := false, pageSize := 5, pageState := [0xcc, 0xdd], disableAutoPage := true }
+    let o := manual (fun _ => 0) [.page [1, 2] (some [0xaa]), .page [] (some [0xbb]), .page [3] none] true q
+    o.rows = [1, 2, 3] ∧ o.err = none ∧ o.reqs = [template q (some [0xcc, 0xdd]), template q (some [0xaa]), template q (some [0xbb])] := by
+  decide
 
 /-- the prefetch threshold is at least 1 for every value of the float expression, so the
     asynchronous fetch never starts before the first row of a page was consumed -/
@@ -73,7 +158,7 @@ theorem C15_prefetch_pos (pp : Nat → Nat) (n : Nat) : 1 ≤ clampPos pp n := b
   unfold clampPos; split <;> omega
 
 /-- within a page, Scan delivers the row at `pos` and advances by one; it never skips or repeats -/
-theorem C15_scan_row {ρ σ ε : Type} (it it' : Iter ρ σ ε) (r : ρ) (h : scanRow it = some (r, it')) :
+theorem C15_scan_row (it it' : Iter) (r : Int) (h : scanRow it = some (r, it')) :
     it.rows[it.pos]? = some r ∧ it'.pos = it.pos + 1 ∧ it'.rows = it.rows ∧ it.err = none := by
   unfold scanRow at h
   cases he : it.err with
